@@ -11,10 +11,15 @@ What is proved here:
    declaring statement has ENDED before the cursor — provided the cursor is not inside the declaring
    statement of a later same-named declaration that the position test fails to exempt (that situation
    is finding class C05-K1 and `K1_witness` shows it is real).
+ * `chain_scope_correct`: the same along any chain of enclosing scopes (any depth, shadowing across blocks);
+ * `chainIn_path` / `scopePath_ends`: for EVERY scope tree — any depth, sub-scopes in any order and even
+   overlapping — and every position, the model of `FindMinScope` returns a path of scopes whose Locs contain
+   the position, starting at a scope none of whose sub-scopes contains it. The proof needs no ordering of the
+   sub-scopes; attempting it for the code as it was (early exit at a sibling that starts after the cursor
+   line) is what exposed the defect repaired by 24205bf (`unordered_siblings_witness`).
 What is validated by correspondence only (see evidence): the scope TREE construction (which construct
-opens a scope with which Loc, insertion order, ReferExp re-pointing) and `FindMinScope`, on every
-identifier occurrence of generated programs against the real server; nested scopes are not yet
-covered by a theorem (`partial`).
+opens a scope with which Loc, insertion order, ReferExp re-pointing), on every identifier occurrence of
+generated programs against the real server.
 -/
 import LuaHelper.Model.Scope
 import LuaHelper.Spec.Bind
@@ -177,6 +182,84 @@ theorem chain_scope_correct (chain : List (List FDecl)) (hwf : ∀ ds ∈ chain,
     have ih' := ih (fun x hx => hwf x (by simp [hx])) (fun x hx => hk x (by simp [hx]))
     simp only [List.findSome?_cons, h1, ih']
 #print axioms chain_scope_correct
+
+/-! ### which scopes form the chain: `FindMinScope` -/
+
+/-- `ch` is a path of nested scopes from a scope none of whose sub-scopes contains the position up to `t`,
+    every step going to a sub-scope whose Loc contains the position -/
+inductive ScopePath (line col : Int) : Tree → List Tree → Prop
+  | leaf (t : Tree) : (∀ c ∈ t.subs, isInLocation c.loc line col = false) → ScopePath line col t [t]
+  | node (t c : Tree) (ch : List Tree) : c ∈ t.subs → isInLocation c.loc line col = true →
+      ScopePath line col c ch → ScopePath line col t (ch ++ [t])
+
+theorem ends_before_not_in (l : Loc) (line col : Int) (h : l.el < line) : isInLocation l line col = false := by
+  unfold isInLocation
+  have : (line > l.el) = True := by simp; omega
+  simp [this]
+
+mutual
+/-- for EVERY scope tree (any depth, any order and overlap of sub-scopes) and every position, the model of
+    `FindMinScope` returns a path of scopes that contain the position, ending where no sub-scope contains it -/
+theorem chainIn_path (line col : Int) : (t : Tree) → ScopePath line col t (chainIn t line col)
+  | .mk l vs subs => by
+    unfold chainIn
+    rcases scan_spec line col subs with ⟨h1, h2⟩ | ⟨c, hc, hin, ch, h1, h2⟩
+    · rw [h1]; exact ScopePath.leaf _ (by simpa [Tree.subs] using h2)
+    · rw [h1]; exact ScopePath.node _ c ch (by simpa [Tree.subs] using hc) hin h2
+theorem scan_spec (line col : Int) : (subs : List Tree) →
+    (scanSubs subs line col = none ∧ ∀ c ∈ subs, isInLocation c.loc line col = false) ∨
+    (∃ c ∈ subs, isInLocation c.loc line col = true ∧ ∃ ch, scanSubs subs line col = some ch ∧ ScopePath line col c ch)
+  | [] => Or.inl ⟨by unfold scanSubs; rfl, by simp⟩
+  | s :: rest => by
+    unfold scanSubs
+    by_cases h1 : s.loc.el < line
+    · simp only [h1, if_true]
+      rcases scan_spec line col rest with ⟨a, b⟩ | ⟨c, hc, hin, ch, a, b⟩
+      · exact Or.inl ⟨a, by
+          intro c hc
+          rcases List.mem_cons.mp hc with rfl | hc
+          · exact ends_before_not_in _ line col h1
+          · exact b c hc⟩
+      · exact Or.inr ⟨c, by simp [hc], hin, ch, a, b⟩
+    · simp only [h1, if_false]
+      by_cases h2 : isInLocation s.loc line col = true
+      · simp only [h2, if_true]
+        exact Or.inr ⟨s, by simp, h2, _, rfl, chainIn_path line col s⟩
+      · simp only [h2, Bool.false_eq_true, if_false]
+        rcases scan_spec line col rest with ⟨a, b⟩ | ⟨c, hc, hin, ch, a, b⟩
+        · exact Or.inl ⟨a, by
+            intro c hc
+            rcases List.mem_cons.mp hc with rfl | hc
+            · simpa using h2
+            · exact b c hc⟩
+        · exact Or.inr ⟨c, by simp [hc], hin, ch, a, b⟩
+end
+#print axioms chainIn_path
+
+/-- the innermost scope of the chain is one none of whose sub-scopes contains the position, the outermost is
+    the scope the search started in, and the chain is never empty -/
+theorem scopePath_ends (line col : Int) (t : Tree) (ch : List Tree) (h : ScopePath line col t ch) :
+    ch.getLast? = some t ∧ ∃ m, ch.head? = some m ∧ ∀ c ∈ m.subs, isInLocation c.loc line col = false := by
+  induction h with
+  | leaf t hl => exact ⟨rfl, t, rfl, hl⟩
+  | node t c ch _ _ hp ih =>
+    obtain ⟨_, m, hm, hs⟩ := ih
+    refine ⟨by simp, m, ?_, hs⟩
+    cases ch with
+    | nil => simp at hm
+    | cons x r => simpa using hm
+#print axioms scopePath_ends
+
+/-- the scenario of the repaired defect (fix 24205bf): the sub-scopes are in traversal order — the step
+    closure of a numeric for (lines 9-11) is listed before the limit closure (lines 7-9) — and the cursor is in
+    the limit closure; the model with the early exit `StartLine > line` would stop at the first sibling -/
+theorem unordered_siblings_witness :
+    let limit : Tree := .mk ⟨7, 12, 9, 3⟩ [] []
+    let step : Tree := .mk ⟨9, 10, 11, 3⟩ [] []
+    let root : Tree := .mk ⟨1, 0, 14, 3⟩ [] [step, limit]
+    (findMinChain root 8 9).map (fun ch => ch.map (·.loc)) = some [⟨7, 12, 9, 3⟩, ⟨1, 0, 14, 3⟩] := by
+  decide
+#print axioms unordered_siblings_witness
 
 /-- The class is real: `local x = 1` / `local x = x + 1` with the cursor on the right-hand `x`:
     the resolver answers the NEW x (declared on line 2) although its scope has not begun. -/
